@@ -47,7 +47,16 @@ type replayFile struct {
 	} `json:"replay"`
 }
 
+// failedRuns counts the runs of each section that ended in a monitor failure; a section stops
+// after a few of them (each costs timeouts, and three replays per kind are kept anyway).
+var failedRuns = map[string]int{}
+
+func giveUp(section string) bool { return failedRuns[section] >= 3 }
+
 func report(c *Ctx, section string, seed uint64, cfg bedConfig, variant int, steps []string, fails []failure) {
+	if len(fails) > 0 {
+		failedRuns[section]++
+	}
 	seen := map[string]bool{}
 	for _, f := range fails {
 		if seen[f.kind] {
@@ -69,17 +78,33 @@ func runC18(c *Ctx) {
 		var rp replayFile
 		b, _ := os.ReadFile(c.Replay)
 		json.Unmarshal(b, &rp)
+		rp0 := rp.Replay
 		for i := 0; i < 10; i++ {
-			switch rp.Replay.Section {
+			switch rp0.Section {
+			case "lint":
+				runLint(c)
 			case "phased":
-				cs, _ := phasedScenario(c, rp.Replay.Seed, rp.Replay.Cfg, rp.Replay.Variant)
+				cs, _ := phasedScenario(c, rp0.Seed, rp0.Cfg, rp0.Variant)
 				cases = append(cases, cs...)
 			case "caps-inbound":
-				cases = append(cases, capsInbound(c, rp.Replay.Seed, rp.Replay.Cfg, rp.Replay.Variant)...)
+				cases = append(cases, capsInbound(c, rp0.Seed, rp0.Cfg, rp0.Variant)...)
+			case "caps-outbound":
+				cases = append(cases, capsOutbound(c, rp0.Seed, rp0.Cfg.MaxOut, rp0.Variant)...)
 			case "stress":
-				stressRun(c, rp.Replay.Seed, rp.Replay.Cfg, rp.Replay.Variant)
+				stressRun(c, rp0.Seed, rp0.Cfg, rp0.Variant)
+			case "threadgroup":
+				tgScripted(c, rp0.Seed, &cases)
+			case "threadgroup-stress":
+				tgStress(c, rp0.Seed)
+			case "rhp4-shutdown":
+				rhp4Shutdown(c, rp0.Seed, rp0.Variant, &cases)
+			case "wallet-shutdown":
+				walletShutdown(c, rp0.Seed, rp0.Variant, &cases)
 			default:
 				runShutdown(c, &cases)
+			}
+			if len(c.Res.Failures) > 0 {
+				break // reproduced
 			}
 		}
 		res.WriteCases("Run.Run_C18", cases)
@@ -89,8 +114,8 @@ func runC18(c *Ctx) {
 	runLint(c)
 
 	// phased scenarios: every per-subnet limit in {-1,0,1,2,64} x per-peer limit in {1,2,3,64}
-	nPhased := c.Scale(120, 1200)
-	for i := 0; i < nPhased; i++ {
+	nPhased := c.Scale(150, 1500)
+	for i := 0; i < nPhased && !giveUp("phased"); i++ {
 		cfg := bedConfig{
 			MaxSubnet: subnetLimits[i%len(subnetLimits)],
 			MaxRPC:    peerLimits[(i/len(subnetLimits))%3],
@@ -110,18 +135,21 @@ func runC18(c *Ctx) {
 
 	t1 := time.Now()
 	nCaps := c.Scale(60, 600)
-	for i := 0; i < nCaps; i++ {
+	for m := 1; m <= 3; m++ { // corpus: the minimal F12 witness for each cap
+		cases = append(cases, capsInbound(c, uint64(m), bedConfig{MaxSubnet: 64, MaxRPC: 4, MaxIn: m, MaxOut: 16, V4Bits: 24}, -1)...)
+	}
+	for i := 0; i < nCaps && !giveUp("caps-inbound"); i++ {
 		cfg := bedConfig{MaxSubnet: 64, MaxRPC: 4, MaxIn: 1 + i%3, MaxOut: 16, V4Bits: 24}
 		cases = append(cases, capsInbound(c, c.R.U64(), cfg, i)...)
 	}
-	for i := 0; i < c.Scale(6, 40); i++ {
+	for i := 0; i < c.Scale(6, 40) && !giveUp("caps-outbound"); i++ {
 		cases = append(cases, capsOutbound(c, c.R.U64(), 1+i%3, 2+i%4)...)
 	}
 	res.Notes = append(res.Notes, fmt.Sprintf("caps: %d inbound scenarios in %.1fs", nCaps, time.Since(t1).Seconds()))
 
 	t2 := time.Now()
 	nStress := c.Scale(20, 200)
-	for i := 0; i < nStress; i++ {
+	for i := 0; i < nStress && !giveUp("stress"); i++ {
 		cfg := bedConfig{
 			MaxSubnet: subnetLimits[i%len(subnetLimits)],
 			MaxRPC:    []int{1, 2, 4}[i%3],
